@@ -225,3 +225,53 @@ Theorem c20_ctx_end_returns_nil : forall tr s a, (exists os, jrun jinit tr = Som
                (~ In (JNA (NAErr EOther)) tr -> e = EClosing /\ acc s = Returned RNil)).
 Proof. exact ctx_end_returns_nil. Qed.
 Print Assumptions c20_ctx_end_returns_nil.
+
+(* TERMINATION of the internal steps.  [is_internal l]: l is a step of a goroutine of Loop, of an abstract server
+   or of the accepter (everything but Accept, CtxEnd, PeerClose, PeerFail, CallStart, CallEnd); [mu s] = steps the
+   accept loop can still take (2/1/0) + for each connection the steps left on its life path.  Every internal
+   step decreases mu; an environment step leaves it alone except a new connection (+7). *)
+Theorem c20_internal_steps_decrease : forall s l s' os, step s l = Some (s', os) ->
+  (is_internal l = true -> mu s' < mu s) /\
+  (is_internal l = false -> mu s' = mu s + (match l with Accept _ => 7 | _ => 0 end)).
+Proof. exact (fun s l s' os H => conj (mu_decreases s l s' os H) (mu_env s l s' os H)). Qed.
+Print Assumptions c20_internal_steps_decrease.
+
+(* hence no infinite sequence of internal steps: a run of internal steps from s has at most mu s of them *)
+Theorem c20_internal_runs_bounded : forall tr s s' os, run s tr = Some (s', os) -> forallb is_internal tr = true ->
+  length tr + mu s' <= mu s.
+Proof. exact internal_run_bounded. Qed.
+Print Assumptions c20_internal_runs_bounded.
+
+(* what [enabled_internal] lists is internal and can be taken *)
+Theorem c20_enabled_internal_sound : forall tr s l, (exists os, run (init true) tr = Some (s, os)) ->
+  In l (enabled_internal s) -> is_internal l = true /\ exists s' os, step s l = Some (s', os).
+Proof. exact enabled_internal_sound. Qed.
+Print Assumptions c20_enabled_internal_sound.
+
+(* EVENTUALLY QUIESCENT: from every reachable state the internal steps alone reach a quiescent state within
+   mu s steps (and, by the bound above, whichever internal step is taken each time, they run out) *)
+Theorem c20_eventually_quiescent : forall tr s, (exists os, run (init true) tr = Some (s, os)) ->
+  exists tr' s', forallb is_internal tr' = true /\ reach (tr ++ tr') s' /\ quiescent s' = true /\
+                 length tr' <= mu s /\ (exists os, run s tr' = Some (s', os)).
+Proof. exact (fun tr s R => eventually_quiescent (mu s) tr s R (le_n _)). Qed.
+Print Assumptions c20_eventually_quiescent.
+
+(* EVENTUALLY, trace form of c20_ctx_stops_all: once the context has ended and no handler is running, internal
+   steps alone (at most mu s) bring every connection to done and Loop to return *)
+Theorem c20_ctx_end_eventually_returns : forall tr s, (exists os, run (init true) tr = Some (s, os)) ->
+  ctx_done s = true -> (forall k c, get s k = Some c -> c_busy c = 0) ->
+  exists tr' s', forallb is_internal tr' = true /\ length tr' <= mu s /\ reach (tr ++ tr') s' /\
+                 quiescent s' = true /\ returned s' = true /\
+                 (forall k c, get s' k = Some c -> is_done (c_phase c) = true).
+Proof. exact ctx_end_eventually_returns. Qed.
+Print Assumptions c20_ctx_end_eventually_returns.
+
+(* EVENTUALLY, for an accepter failure e without context end: internal steps alone reach a quiescent state in
+   which Loop has returned retv_of e unless a server is still running or stopping (its stop is the environment's) *)
+Theorem c20_accept_failure_eventually : forall tr s e, (exists os, run (init true) tr = Some (s, os)) ->
+  In (AcceptErr e) tr ->
+  exists tr' s', forallb is_internal tr' = true /\ length tr' <= mu s /\ reach (tr ++ tr') s' /\ quiescent s' = true /\
+    ((forall k c, get s' k = Some c -> c_phase c <> PRunning /\ forall st, c_phase c <> PStopping st) ->
+       acc s' = Returned (retv_of e) /\ In (LoopReturn (retv_of e)) (tr ++ tr')).
+Proof. exact accept_failure_eventually. Qed.
+Print Assumptions c20_accept_failure_eventually.
